@@ -182,6 +182,18 @@ void table(Tab& t)
             SCN("inplace_vector<int,3>", "operator[](n) const", "%s", sb, true, { IV v{}; for (std::size_t i = 0; i < n; ++i) { v.unchecked_emplace_back((int)i); } IV const& c = v; WATCH(v); use(c[idx]); });
         }
     }
+    for (std::size_t n = 1; n <= 3; ++n) {
+        // indices that alias a valid index when narrowed to 8 or 16 bits (the size is stored in a narrow type)
+        for (std::size_t idx : {std::size_t(256), std::size_t(256) + n - 1, std::size_t(65536) + n - 1, (std::size_t(1) << 32) + n - 1}) {
+            char sb[64];
+            std::snprintf(sb, sizeof sb, "size=%zu,pos=valid-index+2^k", n);
+            SCN("inplace_vector<int,3>", "operator[](n)", "%s", sb, true, { IV v{}; for (std::size_t i = 0; i < n; ++i) { v.unchecked_emplace_back((int)i); } WATCH(v); use(v[idx]); });
+            SCN("static_vector<int,3>", "operator[](pos)", "%s", sb, true, { SV v; fill_vec(v, n); WATCH(v); use(v[idx]); });
+            SCN("inplace_string<7>", "operator[](index)", "%s", sb, true, { etl::inplace_string<7> s7(n, 'a'); WATCH(s7); use(s7[idx]); });
+            SCN("span<int>", "operator[](idx)", "%s", sb, true, { vf::Buf<int> h(n); etl::span<int> sp(h.data(), n); WATCH(sp); use(sp[idx]); });
+            SCN("string_view", "operator[](pos)", "%s", sb, true, { vf::Buf<char> h(n); std::memset(h.data(), 'a', n); etl::string_view sv(h.data(), n); WATCH(sv); use(sv[idx]); });
+        }
+    }
     SCN("inplace_vector<int,3>", "front()", "%s", "empty", true, { IV v{}; WATCH(v); use(v.front()); });
     SCN("inplace_vector<int,3>", "back()", "%s", "empty", true, { IV v{}; WATCH(v); use(v.back()); });
     SCN("inplace_vector<int,3>", "front() const", "%s", "empty", true, { IV const v{}; WATCH(v); use(v.front()); });
